@@ -14,6 +14,7 @@ import (
 // scope's manager at the same time; both get the same instance.
 func ZZVerifC13GetOrCreate() {
 	nd.Schedule(nd.Param("P", 2))
+	nd.Races()
 	scp := scope.New(scope.Params{Name: "s"})
 	m := NewWaitManager()
 	got := make([]commservices.ScopeWaitManager, 2)
